@@ -77,3 +77,114 @@ def fixtures(repo):
     nwk = open(os.path.join(d, 'birds.nwk')).read().strip()
     add('birds', tree_from_newick(nwk), 'own', 'birds.orthoxml', dict(tree_file=nwk, use_internal_name=True))
     return out
+
+# ------------------------------------------------------------------ the Lean witness datasets
+
+def _sx_parse(text):
+    """parser for the driver's s-expressions: atoms -> ('a', s), strings -> str, lists -> list"""
+    i = 0; n = len(text)
+    def one():
+        nonlocal i
+        while i < n and text[i] in ' \n':
+            i += 1
+        c = text[i]
+        if c == '(':
+            i += 1; out = []
+            while True:
+                while text[i] in ' \n':
+                    i += 1
+                if text[i] == ')':
+                    i += 1; return out
+                out.append(one())
+        if c == '"':
+            i += 1; buf = []
+            while text[i] != '"':
+                if text[i] == '\\':
+                    i += 1
+                buf.append(text[i]); i += 1
+            i += 1
+            return ''.join(buf)
+        j = i
+        while i < n and text[i] not in ' ()\n':
+            i += 1
+        return ('a', text[j:i])
+    return one()
+
+def _atom(x):
+    return x[1] if isinstance(x, tuple) else None
+
+def _o(x):
+    return x if isinstance(x, str) else None
+
+def _tree(x):
+    return (x[1], tuple(_tree(k) for k in x[2:]))
+
+def _elem(x):
+    k = _atom(x[0])
+    if k == 'ref':
+        return ('ref', x[1], x[2] if len(x) > 2 else None)
+    if k in ('score', 'prop'):
+        return (k, x[1], x[2])
+    if k == 'og':
+        return ('og', _o(x[1]), _o(x[2]), [_elem(e) for e in x[3:]])
+    return ('pg', _o(x[1]), [_elem(e) for e in x[2:]])
+
+def _sl(x):
+    if _atom(x[0]) == 'g':
+        return ('g', x[1], x[2] if len(x) > 2 else None)
+    return ('grp', _atom(x[1]) == '1', _o(x[2]), _atom(x[3]) == '1', [_sub(s) for s in x[4:]])
+
+def _sub(x):
+    k = _atom(x[0])
+    if k == 'one':
+        return ('one', int(_atom(x[1])), _sl(x[2]))
+    if k == 'dup':
+        return ('dup', int(_atom(x[1])), _o(x[2]), [_sl(c) for c in x[3:]])
+    return ('ann', _elem(x[1]))
+
+def lean_witnesses(driver):
+    """the datasets PROVED consistent in lean/PyhamModel/Witness.lean (`simpleEx` = the repository fixture written as
+    spelled histories, `elided` = a polytomy tree with elided levels, spilled paralog groups, annotations), printed by
+    the driver and turned into ordinary generated-style datasets (with histories, so every echo and oracle applies)"""
+    import subprocess
+    p = subprocess.run([driver], input='(witnesses)\n', stdout=subprocess.PIPE, stderr=subprocess.PIPE, text=True)
+    out = []
+    for ln in p.stdout.split('\n'):
+        parts = ln.split('\t', 2)
+        if len(parts) == 3 and parts[1] == 'wcase':
+            sx = _sx_parse(parts[2])
+            f = {_atom(e[0]): e[1:] for e in sx[2:]}
+            D = gen.Dataset(_tree(f['tree'][0]), _atom(f['naming'][0]))
+            D.species = [(sp[1], [(g[1], [(kv[0], kv[1]) for kv in g[2:]]) for g in sp[2:]]) for sp in f['species']]
+            D.groups = [_elem(e) for e in f['groups']]
+            D.base_groups = list(D.groups)
+            D.families = []
+            for h in f['histories']:
+                tax = tuple(int(_atom(a)) for a in h[0])
+                l = _sl(h[1])
+                D.families.append((tax, l, l[2]))
+            D.meta = dict(witness=sx[1])
+            out.append(D)
+    return out
+
+def witness_matches_fixture(D, repo):
+    """the Lean dataset `simpleEx` is the repository's tests/data/simpleEx.orthoxml: same species blocks, genes,
+    cross-references and the same <groups> tree (attributes and element order inside a group up to the position
+    of the TaxRange property, which the encoder writes first)"""
+    sp, gr = read_orthoxml(os.path.join(repo, 'tests', 'data', 'simpleEx.orthoxml'))
+    def norm(e):
+        if e[0] == 'og':
+            kids = [norm(x) for x in e[3]]
+            return ('og', e[1], e[2], sorted([k for k in kids if k[0] in ('prop', 'score')]) + [k for k in kids if k[0] not in ('prop', 'score')])
+        if e[0] == 'pg':
+            return ('pg', e[1], [norm(x) for x in e[2]])
+        return tuple(e)
+    bad = []
+    if [(n, [(g, sorted(x)) for g, x in gs]) for n, gs in sp] != [(n, [(g, sorted(x)) for g, x in gs]) for n, gs in D.species]:
+        bad.append('species section of Witness.simpleEx differs from tests/data/simpleEx.orthoxml')
+    if [norm(g) for g in gr] != [norm(g) for g in D.groups]:
+        bad.append('<groups> of Witness.simpleEx differs from tests/data/simpleEx.orthoxml')
+    T = tree_from_newick(open(os.path.join(repo, 'tests', 'data', 'simpleEx.nwk')).read().strip())
+    if T != D.T:
+        bad.append('tree of Witness.simpleEx differs from tests/data/simpleEx.nwk')
+    return bad
